@@ -35,6 +35,21 @@ else:
     mpctx_Process = mpctx.Process
 
 
+def send_exception(connection: Connection, e: Exception) -> None:
+    """
+    Send the token -2 followed by a tuple (exception, traceback string) over the
+    connection to notify the other end that an exception has occurred.
+    """
+    tb_str = traceback.format_exc()
+    connection.send(-2)
+    try:
+        connection.send((e, tb_str))
+    except Exception:
+        # Not all exceptions can be pickled (for example, those raised by some
+        # decompression libraries). The other end must not wait forever.
+        connection.send((RuntimeError(f"{type(e).__name__}: {e}"), tb_str))
+
+
 class ReaderProcess(mpctx_Process):
     """
     Read chunks of FASTA or FASTQ data (single-end or paired) and send them to a worker.
@@ -97,8 +112,7 @@ class ReaderProcess(mpctx_Process):
                     ]
                     file_format = detect_file_format(files[0])
                 except Exception as e:
-                    self._file_format_connection.send(-2)
-                    self._file_format_connection.send((e, traceback.format_exc()))
+                    send_exception(self._file_format_connection, e)
                     raise
                 self._file_format_connection.send(file_format)
                 for index, chunks in enumerate(self._read_chunks(*files)):
@@ -110,8 +124,7 @@ class ReaderProcess(mpctx_Process):
             # splitting up the input into chunks. FASTQ/FASTA parsing problems
             # are caught within the workers.
             for connection in self.connections:
-                connection.send(-2)
-                connection.send((e, traceback.format_exc()))
+                send_exception(connection, e)
 
     def _read_chunks(self, *files) -> Iterator[Tuple[memoryview, ...]]:
         if len(files) == 1:
@@ -210,8 +223,7 @@ class WorkerProcess(mpctx_Process):
             self._write_pipe.send(-1)
             self._write_pipe.send(stats)
         except Exception as e:
-            self._write_pipe.send(-2)
-            self._write_pipe.send((e, traceback.format_exc()))
+            send_exception(self._write_pipe, e)
 
     def _send_outfiles(self, chunk_index: int, n_reads: int):
         self._write_pipe.send(chunk_index)
